@@ -182,8 +182,9 @@ def run(tier, replay=None):
     cov["rule"] = ("objects generated from VERIF_SEED: tensors (10 scalar types x rank 1..5 x dims 0..6, arbitrary bit patterns), the 7 "
                    "parameter kinds, random configurables and features, every registered loss/solver/tuner/splitter/line-search "
                    "with random valid parameter values, fitted linear and gradient boosting models and every weak learner type; "
-                   "per object: the full read, EVERY strict prefix (exhaustive), single-byte corruptions (all positions for streams "
-                   "up to 600/4000 bytes (quick/thorough), else the first 64 bytes + a random sample; 2-3 replacement bytes each). "
+                   "per object: the full read, EVERY strict prefix (exhaustive), single-byte corruptions (quick: all positions of tensor "
+                   "streams up to 600 bytes and of other streams up to 160 bytes, thorough: up to 4000 resp. 1500 bytes; longer streams: the "
+                   "first 64 bytes + a random sample; 2-3 replacement bytes each incl. sign/top bits). "
                    "evaluations = reads of the real reader; distinct non-trivial = distinct (stream, non-empty prefix length) and "
                    "(stream, position, byte) cases")
     cov["objects"] = dict(kinds)
